@@ -28,7 +28,8 @@ def gen_redirs(r, k, profile, targets):
             op = r.choice(OUT_OPS)[0]
             m = r.below(10)
             tgt = r.choice(UNWRITABLE) if m == 0 else targets()
-            out.append(op + tgt if r.below(2) else op + " " + tgt)
+            k_ = r.below(6)
+            out.append(op + tgt if k_ < 3 else (op + " " + tgt if k_ < 5 else op + ' "' + tgt + '"'))     # also `2> "file"`
     return out
 
 
@@ -276,6 +277,8 @@ CORPUS = [
     ([("P", "nosuchprog <<< hs"), ("P", "fdstage q0 P S$?"), ("P", "fdstage a1x0 R >> nodir/x <<< hs"), ("P", "fdstage q1 P S$?")], "script"),
     # a here-string larger than a pipe buffer given to a command that never reads it (the shell used to die of SIGPIPE)
     ([("P", "fdstage a0x0 <<< " + "x" * 65536), ("P", "fdstage q0 P S$?")], "script"),
+    # ... and afterwards the shell must not be left ignoring SIGPIPE: a later writer behind an early-exiting reader is still woken up
+    ([("P", "fdstage a0x0 <<< " + "x" * 100000), ("P", "fdstage q0 P S$?"), ("P", "fdstage g0 G"), ("P", "fdstage q1 P S$?")], "script"),
     # the empty word is a word: `<<< ""` supplies one empty line, `< ""` names a file that cannot be opened
     ([("P", 'fdstage a0x0 R <<< ""'), ("P", "fdstage q0 P S$?"), ("P", "fdstage a1x0 Wup | fdstage a1x1 R <<< ''"), ("P", "fdstage q1 P S$?"),
       ("P", 'fdstage a2x0 R < ""'), ("P", "fdstage q2 P S$?")], "script"),
